@@ -1,0 +1,17 @@
+//go:build verif && verifauth
+
+package xmss
+
+func init() { VerifRootFromAuth = verifRootFromAuth }
+
+// VerifRootFromAuth evaluates an authentication path with the library's own
+// validateAuthPath and returns the root it leads to.
+func verifRootFromAuth(hashFunction HashFunction, leaf []uint8, leafIdx uint32, authPath []uint8, h uint32, pubSeed []uint8) []uint8 {
+	n := WOTSParamN
+	root := make([]uint8, n)
+	var nodeAddr [8]uint32
+	nodeAddr[3] = 2
+	validateAuthPath(hashFunction, root, leaf, leafIdx, authPath, n, h, pubSeed, &nodeAddr)
+	return root
+}
+
